@@ -60,7 +60,7 @@ def test(patch, ids, tier="quick"):
         for i in ids:
             t0 = time.time()
             os.makedirs("/tmp/mut-replays", exist_ok=True)
-            env = dict(ENV, VERIF_REPO=d, VERIF_NOEVIDENCE="1", VERIF_REPLAY_DIR="/tmp/mut-replays")
+            env = dict(ENV, VERIF_REPO=d, VERIF_NOEVIDENCE="1", VERIF_REPLAY_DIR="/tmp/mut-replays", VERIF_NO_REGRESS="1")
             rc, out = sh([os.path.join(VERIF, "run"), i, tier], cwd=VERIF, env=env, timeout=3600)
             first = [l for l in out.splitlines() if l.startswith(("VIOLATION", "  sig=", "OK", "INCONCLUSIVE"))][:2]
             res[i] = {"exit": rc, "detected": rc == 1, "wall": round(time.time() - t0, 1), "head": first}
